@@ -126,7 +126,34 @@ def check_query(case, nodes, labels, preorder_index, ic, start, pattern, unique,
                 raise Violation("glob-vs-get-relaxed", "%s: relaxed get -> %s, relaxed glob -> %s" % (ctx, labels.label(rg[1]), labels.labels(got)))
             if rg[1] is not None and got[0] is not rg[1]:
                 raise Violation("glob-vs-get-relaxed", "%s: relaxed get and glob denote different nodes" % ctx)
+    # a result belongs to the caller: whatever the caller does to the list (found += ..., sort, clear) never shows up in a
+    # later result
+    got.extend(nodes)
+    got.reverse()
+    if unique and strict[0] == "ok" and isinstance(strict[1], list):
+        strict[1].append(start)
     return nontrivial, bool(exp)
+
+
+# characters that mean something to the regular-expression engine but nothing in a pattern: braces that look like quantifiers,
+# character-class shorthands, anchors, alternation, groups
+REGEX_NAMES = ["v{2}", "vv", "v", "{1}", "a{1,2}", "aa", "a", "\\d", "7", "^a$", "(a)", "a|b", "a+", "a.b", "axb", "[ab]", "b"]
+REGEX_PATTERNS = REGEX_NAMES + ["*{1}", "v{2}*", "?{2}", "*{1,2}", "\\d*", "?d", "^*", "(?)", "a|*", "*+", "a.?", "[*]", "[ab]*", "*/v{2}", "**/{1}", "v{2}/a"]
+
+
+def _regex_cases():
+    k = 0
+    for shape in ([[], [], []], [[[]], []], [[[], []]], [[[[]]]]):
+        size = shapes.shape_size(forest.to_tuple(shape))
+        parents = shapes.shape_to_parents(forest.to_tuple(shape))
+        for offset in range(0, len(REGEX_NAMES), 2):
+            names = ["top"] + [REGEX_NAMES[(offset + i) % len(REGEX_NAMES)] for i in range(1, size)]
+            names = uniquify(names, parents)
+            for start in range(size):
+                k += 1
+                queries = [[(j + k) % 2 == 0, start, pat, False] for j, pat in enumerate(REGEX_PATTERNS + names[1:])]
+                queries += [[q[0], q[1], "/top/" + q[2], False] for q in queries[::3]]
+                yield {"shape": shape, "names": names, "sep": "/", "pathattr": "name", "queries": queries}
 
 
 SPECIAL_NAMES = ["\u00df", "stra\u00dfe", "STRASSE", "strasse", "\ufb01le", "FILE", "file", "\u0131", "I", "i", "\u0130", "\u212a", "k", "K", "\u017f", "s", "\u0149", "\u01f0x", "\u0130zmir", "i\u0307zmir", "izmir", "IZMIR"]
@@ -421,7 +448,7 @@ def plan(tier, seed):
     max_nodes, maxlen = (4, 3) if tier == "quick" else (5, 4)
     tasks = [{"engine": "enum", "max_nodes": max_nodes, "maxlen": maxlen, "index": i, "count": nshards * 2} for i in range(nshards * 2)]
     tasks += [{"engine": "hyp", "examples": examples, "seed": seed * 1000 + i} for i in range(nshards)]
-    tasks += [{"engine": "reentrant"}, {"engine": "mixed"}]
+    tasks += [{"engine": "reentrant"}, {"engine": "mixed"}, {"engine": "regex"}]
     tasks += [{"engine": "special", "seed": seed * 1000 + 700 + i, "examples": 8 if tier == "quick" else 60} for i in range(4)]
     if tier == "thorough":
         # coverage-guided supplement: 16 libFuzzer campaigns on the same strategy + oracle (skipped if atheris is unavailable)
@@ -434,6 +461,8 @@ def run_task(task, acc):
         from ..core import run_fuzz_task
 
         return run_fuzz_task(PROP_ID, task, acc)
+    if task["engine"] == "regex":
+        return acc.run_enum(check_case, _regex_cases())
     if task["engine"] == "mixed":
         for seps in (["/", ":"], [":", "/"], ["|", "::", "/"], ["::", "-"]):
             for ic in (False, True):
